@@ -51,6 +51,9 @@ ApplyEv(o, e) ==
     [] e.e = "got" /\ e.ok /\ e.k = -2 ->       \* a keep-up consumer (recvall): it is back in its next receive at once
          [o EXCEPT !.got[e.o] = Append(@, e.v), !.gotAt[e.o] = Append(@, e.at), !.recvAt[e.o] = Append(@, e.at)]
     [] e.e = "recvdone" -> [o EXCEPT !.rp[e.o] = FALSE]
+    \* the moment the cancel was really issued (logged under the log's lock): what was logged before it in this window -
+    \* by operations started earlier in the same burst - happened before the cancel
+    [] e.e = "cancelmark" -> [o EXCEPT !.sentAtCancel = o.sent, !.gotAtCancel = [x \in Outs |-> Len(o.got[x])]]
     [] e.e = "got" /\ e.ok -> [o EXCEPT !.got[e.o] = Append(@, e.v), !.gotAt[e.o] = Append(@, e.at), !.rp[e.o] = FALSE]
     [] e.e = "got" /\ ~e.ok -> [o EXCEPT !.seen[e.o] = TRUE, !.rp[e.o] = FALSE]
     [] e.e = "call" -> [o EXCEPT !.calls = Append(@, [a |-> e.a, x |-> e.x, at |-> e.at]), !.pending = @ + (IF Cfg.gate THEN 1 ELSE 0)]
